@@ -37,6 +37,7 @@ type mutant struct {
 	Replace  string `json:"replace"`
 	Expect   string `json:"expect"` // "violation" (default) | "pass"
 	Note     string `json:"note,omitempty"`
+	Patch    string `json:"patch,omitempty"` // unified diff, path relative to the verification root (seeded changes)
 	Edits    []struct {
 		File    string `json:"file"`
 		Find    string `json:"find"`
@@ -442,6 +443,16 @@ func runMutantChild(file, repo, verif string) int {
 		edits = append(edits, edit{e.File, e.Find, e.Replace})
 	}
 	overlay := map[string][]byte{}
+	if m.Patch != "" {
+		pb, err := os.ReadFile(filepath.Join(verif, m.Patch))
+		if err != nil {
+			return emit(mutantResult{ID: m.ID, Status: "invalid", Detail: err.Error()})
+		}
+		overlay, err = applyUnifiedDiff(repo, string(pb))
+		if err != nil {
+			return emit(mutantResult{ID: m.ID, Status: "stale", Detail: err.Error()})
+		}
+	}
 	for _, e := range edits {
 		abs := filepath.Join(repo, e.File)
 		src, ok := overlay[abs]
